@@ -78,6 +78,21 @@ theorem peer_edge_common (mac : MacFn) (net : Net) (e : Edge) (k : Nat) (hpeer :
   simp at hlast'
   rw [hlast']; exact hlast0
 
+/-- SegID path combination gives an up segment that ends in a peering hop -/
+def upStart (β : Nat) (x : ASE) (rest : List ASE) : Nat :=
+  match rest with
+  | [] => updateSegID β (pfx x.hop.mac)
+  | _ :: _ => extractBeta β (sig ((x :: rest).dropLast))
+
+theorem upStart_snoc (β : Nat) (x : ASE) (mid : List ASE) (last : ASE) :
+    upStart β x (mid ++ [last]) = extractBeta β (sig (x :: mid)) := by
+  have h : x :: (mid ++ [last]) = (x :: mid) ++ [last] := by simp
+  cases mid with
+  | nil => simp [upStart, sig, extractBeta]
+  | cons y ys =>
+    simp only [upStart, List.cons_append]
+    rw [show x :: y :: (ys ++ [last]) = (x :: y :: ys) ++ [last] by simp, List.dropLast_concat]
+
 section
 variable (mac : MacFn) (net : Net) (now src dst : Nat) (ts : Nat)
 variable (hWF : WFNet net) (hUp : AllUp net) (hSR : SingleRouter net)
@@ -94,14 +109,17 @@ theorem peer_down_run (β : Nat) (xD : ASE) (rest : List ASE) (pD : PeerE) (hpD 
     ∃ cf, run mac net now src dst (fuel + 1 + rest.length) xD.ia 0 (.ext pD.hop.cIn)
         ⟨[s0], ⟨true, true, updateSegID β (pfx xD.hop.mac), ts⟩, [], hopOf pD.hop,
           rest.map (fun e => hopOf e.hop), []⟩ tr0 =
-      .delivered dst (tr0 ++ chainTrace xD rest) cf := by
+      .delivered dst (tr0 ++ chainTrace xD rest) cf ∧
+      reverseCursor cf = mkCur [] ⟨false, true, upStart β xD rest, ts⟩ []
+        (rest.reverse.map (fun e => hopOf e.hop) ++ [hopOf pD.hop]) [revSeg s0] := by
   cases rest with
   | nil =>
     simp only [Chain] at hc
     obtain ⟨fp, hfp, _, _, _, _, hpmac⟩ := hc.2 pD hpD
     have := peer_down_single_run mac net now src dst ts (updateSegID β (pfx xD.hop.mac)) xD pD hpmac
       (hWF _ _ _ hfp).1 (by simpa [lastOf] using hdst) hsd hexpp s0 fuel tr0
-    exact ⟨_, by simpa [chainTrace] using this⟩
+    exact ⟨_, by simpa [chainTrace] using this,
+      by simp [reverseCursor, mkCur, upStart, flipInfo]⟩
   | cons y r =>
     obtain ⟨mid, last, hml⟩ := exists_snoc y r
     rw [hml] at hc hdst hns hnd hexp ⊢
@@ -119,13 +137,9 @@ theorem peer_down_run (β : Nat) (xD : ASE) (rest : List ASE) (pD : PeerE) (hpD 
         ((firstOf mid last).ia, (firstOf mid last).hop.cIn) :: fTrace true mid last := by
       rw [chainTrace_snoc]; simp [downTrace, downTrace_eq]
     rw [this, htr]
-    exact ⟨_, rfl⟩
-
-/-- SegID path combination gives an up segment that ends in a peering hop -/
-def upStart (β : Nat) (x : ASE) (rest : List ASE) : Nat :=
-  match rest with
-  | [] => updateSegID β (pfx x.hop.mac)
-  | _ :: _ => extractBeta β (sig ((x :: rest).dropLast))
+    refine ⟨_, rfl, ?_⟩
+    rw [upStart_snoc]
+    simp [reverseCursor, mkCur, flipInfo, List.map_reverse, sig, extractBeta]
 
 /-- the up segment of a peering path, any length: from a host of the last AS of the used part to
     the arrival, over the peering link, at the peering AS of the down segment -/
@@ -140,7 +154,9 @@ theorem peer_up_run (β : Nat) (x : ASE) (rest : List ASE) (pU : PeerE) (hpU : p
         (mkCur [] ⟨false, true, upStart β x rest, ts⟩ []
           (rest.reverse.map (fun e => hopOf e.hop) ++ [hopOf pU.hop]) [⟨i1, h1 :: t1⟩]) [] =
       run mac net now src dst fuel pU.peerAS 0 (.ext pU.peerIf) ⟨[sU], i1, [], h1, t1, []⟩
-        ((chainTrace x rest).reverse ++ [(x.ia, pU.hop.cIn), (pU.peerAS, pU.peerIf)]) := by
+        ((chainTrace x rest).reverse ++ [(x.ia, pU.hop.cIn), (pU.peerAS, pU.peerIf)]) ∧
+      revSeg sU = ⟨⟨true, true, updateSegID β (pfx x.hop.mac), ts⟩,
+        hopOf pU.hop :: rest.map (fun e => hopOf e.hop)⟩ := by
   cases rest with
   | nil =>
     simp only [Chain] at hc
@@ -148,7 +164,7 @@ theorem peer_up_run (β : Nat) (x : ASE) (rest : List ASE) (pU : PeerE) (hpU : p
     obtain ⟨g, hg, hrun⟩ := peer_up_single_run mac net now src dst ts hWF hUp hSR
       (updateSegID β (pfx x.hop.mac)) x pU fp hpmac hfp hpas hpif (by simpa [lastOf] using hsrc) hsd
       hexpp i1 h1 t1 fuel
-    exact ⟨g, _, hg, by simpa [mkCur, upStart, chainTrace] using hrun⟩
+    exact ⟨g, _, hg, by simpa [mkCur, upStart, chainTrace] using hrun, by simp [revSeg, flipInfo]⟩
   | cons y r =>
     obtain ⟨mid, last, hml⟩ := exists_snoc y r
     have hus : upStart β x (y :: r) = extractBeta β (sig (x :: mid)) := by
@@ -193,7 +209,14 @@ theorem peer_up_run (β : Nat) (x : ASE) (rest : List ASE) (pU : PeerE) (hpU : p
       rw [chainTrace_snoc, downTrace_reverse]
       simp [upTrace, upTrace_eq]
     rw [hcur, htr]
-    exact ⟨g, _, hg, hrun⟩
+    refine ⟨g, _, hg, hrun, ?_⟩
+    have hsU : extractBeta (extractBeta β (sig (x :: mid))) (sig mid.reverse) =
+        updateSegID β (pfx x.hop.mac) := by
+      rw [sig_reverse, Scion.SegID.extractBeta_eq _ (sig mid).reverse, Scion.SegID.xorAll_reverse,
+        Scion.SegID.extractBeta_eq _ (sig (x :: mid))]
+      simp only [sig, List.map_cons, Scion.SegID.xorAll, updateSegID]
+      rw [← Nat.xor_assoc, Scion.SegID.xor_cancel]
+    simp [revSeg, flipInfo, hsU, List.map_reverse]
 
 end
 
@@ -266,12 +289,22 @@ theorem lastOf_mem (x : ASE) (rest : List ASE) : lastOf x rest ∈ x :: rest := 
 
 /-- **C02, peering paths**: up segment (any number of hops ≥ 1) ending in a peer entry, peering
     link, down segment starting with the matching peer entry; one border router per AS -/
-theorem peering_accepted (mac : MacFn) (net : Net) (now src dst : Nat)
+theorem segs_mkCur (i : Info) (l : List Hop) (rest : List Seg) (hl : l ≠ []) :
+    (mkCur [] i [] l rest).segs = ⟨i, l⟩ :: rest := by
+  cases l with
+  | nil => exact absurd rfl hl
+  | cons h t => simp [mkCur, Cursor.segs, Cursor.curSeg]
+
+/-- C02 over peering paths, with what C03 needs about the delivered packet: reversed, it carries
+    the path that path combination builds from the same two segments used the other way round -/
+theorem peering_accepted_full (mac : MacFn) (net : Net) (now src dst : Nat)
     (hWF : WFNet net) (hUp : AllUp net) (hSR : SingleRouter net)
     (eu ed : Edge) (c : Cursor) (ku kd : Nat) (hup : eu.peer = some ku) (hdp : ed.peer = some kd)
     (hJ : Joinable mac net [eu, ed] src dst) (hp : pathOf [eu, ed] = some c)
     (hexp : Unexpired now c) :
-    ∃ cf, send mac net now src dst c = .delivered dst (pathIfaces [eu, ed]) cf := by
+    ∃ cf, send mac net now src dst c = .delivered dst (pathIfaces [eu, ed]) cf ∧
+      pathOf [{ ed with down := false }, { eu with down := true }] = some (reverseCursor cf) ∧
+      Unexpired now (reverseCursor cf) := by
   obtain ⟨_, _, hval, hjoints, _, hhead, hlast, hnd⟩ := hJ
   have hj := hjoints.1
   simp only [Joint, hup, hdp] at hj
@@ -353,7 +386,7 @@ theorem peering_accepted (mac : MacFn) (net : Net) (now src dst : Nat)
       | cons a b => simp [mkCur, Cursor.segs]
     exact hexp _ hcs h hh
   -- up part
-  obtain ⟨g, sU, hg, hrunU⟩ := peer_up_run mac net now src dst eu.seg.ts hWF hUp hSR
+  obtain ⟨g, sU, hg, hrunU, hrevU⟩ := peer_up_run mac net now src dst eu.seg.ts hWF hUp hSR
     (extractBeta eu.seg.s0 (sig preU)) x1 restU p1 hmU hcU hsrc hsd
     (fun e he => by rw [hdst]; exact hUD e he _ (lastOf_mem x2 restD)) hndU
     (fun e he => by
@@ -363,7 +396,7 @@ theorem peering_accepted (mac : MacFn) (net : Net) (now src dst : Nat)
     ⟨true, true, updateSegID (extractBeta ed.seg.s0 (sig preD)) (pfx x2.hop.mac), ed.seg.ts⟩
     (hopOf p2.hop) (restD.map fun y => hopOf y.hop) (restD.length + 1 + restU.length + restD.length + 4)
   -- down part
-  obtain ⟨cf, hrunD⟩ := peer_down_run mac net now src dst ed.seg.ts hWF hUp hSR
+  obtain ⟨cf, hrunD, hrevD⟩ := peer_down_run mac net now src dst ed.seg.ts hWF hUp hSR
     (extractBeta ed.seg.s0 (sig preD)) x2 restD p2 hmD hcD hdst hsd
     (fun e he => by rw [hsrc]; exact Ne.symm (hUD _ (lastOf_mem x1 restU) e he)) hndD
     (fun e he => by
@@ -372,7 +405,26 @@ theorem peering_accepted (mac : MacFn) (net : Net) (now src dst : Nat)
     (by have := hexpD (hopOf p2.hop) (by simp); simpa [hopOf] using this)
     sU (restU.length + restD.length + 4)
     ((chainTrace x1 restU).reverse ++ [(x1.ia, p1.hop.cIn), (p1.peerAS, p1.peerIf)])
-  refine ⟨cf, ?_⟩
+  rw [hrevU] at hrevD
+  refine ⟨cf, ?_, ?_, ?_⟩
+  rotate_left
+  · have hsD' := peer_up_edgeSeg { ed with down := false } kd hdp rfl preD x2 restD p2 hentD hplD hpD
+    have hsU' := peer_down_edgeSeg { eu with down := true } ku hup rfl preU x1 restU p1 hentU hplU hpU
+    simp only [pathOf, segsOf, hsD', hsU']
+    rw [startCursor_mkCur _ _ _ (by simp), hrevD]
+  · rw [hrevD]
+    intro s hs h hh
+    rw [segs_mkCur _ _ _ (by simp)] at hs
+    simp only [List.mem_cons, List.not_mem_nil, or_false] at hs
+    rcases hs with rfl | rfl
+    · simp only [List.mem_append, List.mem_map, List.mem_reverse, List.mem_singleton] at hh
+      rcases hh with ⟨y, hy, rfl⟩ | rfl
+      · exact hexpD _ (by simp; exact Or.inr ⟨y, hy, rfl⟩)
+      · exact hexpD _ (by simp)
+    · simp only [List.mem_cons, List.mem_map] at hh
+      rcases hh with rfl | ⟨y, hy, rfl⟩
+      · exact hexpU _ (by simp)
+      · exact hexpU _ (by simp; exact Or.inl ⟨y, hy, rfl⟩)
   have hfuel : fuelFor c = (restD.length + 1 + restU.length + restD.length + 4) + 1 + restU.length := by
     rw [hc]
     cases hl : restU.reverse.map (fun y => hopOf y.hop) ++ [hopOf p1.hop] with
@@ -405,5 +457,117 @@ theorem peering_accepted (mac : MacFn) (net : Net) (now src dst : Nat)
       (restU.length + restD.length + 4) + 1 + restD.length := by omega
   rw [h3]
   exact hrunD
+
+theorem peering_accepted (mac : MacFn) (net : Net) (now src dst : Nat)
+    (hWF : WFNet net) (hUp : AllUp net) (hSR : SingleRouter net)
+    (eu ed : Edge) (c : Cursor) (ku kd : Nat) (hup : eu.peer = some ku) (hdp : ed.peer = some kd)
+    (hJ : Joinable mac net [eu, ed] src dst) (hp : pathOf [eu, ed] = some c)
+    (hexp : Unexpired now c) :
+    ∃ cf, send mac net now src dst c = .delivered dst (pathIfaces [eu, ed]) cf := by
+  obtain ⟨cf, h, _⟩ := peering_accepted_full mac net now src dst hWF hUp hSR eu ed c ku kd hup hdp hJ hp hexp
+  exact ⟨cf, h⟩
+
+/-- the two edges of a peering path used the other way round are again what path combination
+    may join (`Joinable` is symmetric) -/
+theorem joinable_flip_peering (mac : MacFn) (net : Net) (eu ed : Edge) (src dst ku kd : Nat)
+    (hup : eu.peer = some ku) (hdp : ed.peer = some kd)
+    (hJ : Joinable mac net [eu, ed] src dst) :
+    Joinable mac net [{ ed with down := false }, { eu with down := true }] dst src := by
+  obtain ⟨_, _, hval, hjoints, _, hhead, hlast, hnd⟩ := hJ
+  have hj := hjoints.1
+  simp only [Joint, hup, hdp] at hj
+  obtain ⟨hk0, hk2, x1, x2, p1, p2, hx1, hx2, hp1, hp2, hpa1, hpa2, hpi1, hpi2⟩ := hj
+  obtain ⟨huc, hud⟩ := kind_zero eu hk0
+  obtain ⟨hdc, hdd⟩ := kind_two ed hk2
+  have hases : pathASes [{ ed with down := false }, { eu with down := true }] =
+      (pathASes [eu, ed]).reverse := by
+    simp [pathASes, hup, hdp, Edge.ases, Edge.used, hud, hdd]
+  refine ⟨by simp, by simp, ?_, ?_, by simp, ?_, ?_, ?_⟩
+  · intro e he
+    simp only [List.mem_cons, List.not_mem_nil, or_false] at he
+    rcases he with rfl | rfl
+    · exact hval ed (by simp)
+    · exact hval eu (by simp)
+  · refine ⟨?_, trivial⟩
+    simp only [Joint, hup, hdp]
+    exact ⟨by simp [Edge.kind, hdc], by simp [Edge.kind, huc],
+      x2, x1, p2, p1, hx2, hx1, hp2, hp1, hpa2, hpa1, hpi2, hpi1⟩
+  · rw [hases, List.head?_reverse]; exact hlast
+  · rw [hases, List.getLast?_reverse]; exact hhead
+  · rw [hases]; exact nodup_rev _ hnd
+
+theorem edgeIfaces_flip (e : Edge) :
+    edgeIfaces { e with down := !e.down } = (edgeIfaces e).reverse := by
+  have := pathIfaces_flip e
+  simpa [pathIfaces] using this
+
+theorem pathIfaces_flip_peering (eu ed : Edge) (hud : eu.down = false) (hdd : ed.down = true) :
+    pathIfaces [{ ed with down := false }, { eu with down := true }] =
+      (pathIfaces [eu, ed]).reverse := by
+  have h1 := edgeIfaces_flip eu
+  have h2 := edgeIfaces_flip ed
+  rw [hud] at h1
+  rw [hdd] at h2
+  simp only [Bool.not_false, Bool.not_true] at h1 h2
+  simp [pathIfaces, h1, h2]
+
+/-- **C03 over peering paths** (one border router per AS): the delivered packet, with its path
+    reversed, goes back to the source AS over the same interfaces in reverse order -/
+theorem reverse_run_peering (mac : MacFn) (net : Net) (now src dst : Nat)
+    (hWF : WFNet net) (hUp : AllUp net) (hSR : SingleRouter net)
+    (eu ed : Edge) (c cf : Cursor) (tr : List (Nat × Nat)) (ku kd : Nat)
+    (hup : eu.peer = some ku) (hdp : ed.peer = some kd)
+    (hJ : Joinable mac net [eu, ed] src dst) (hp : pathOf [eu, ed] = some c)
+    (hexp : Unexpired now c)
+    (hsend : send mac net now src dst c = .delivered dst tr cf) :
+    ∃ cr, send mac net now dst src (reverseCursor cf) = .delivered src tr.reverse cr := by
+  obtain ⟨cf', h1, h2, h3⟩ :=
+    peering_accepted_full mac net now src dst hWF hUp hSR eu ed c ku kd hup hdp hJ hp hexp
+  rw [h1] at hsend
+  cases hsend
+  have hJ' := joinable_flip_peering mac net eu ed src dst ku kd hup hdp hJ
+  have hj := hJ.2.2.2.1.1
+  simp only [Joint, hup, hdp] at hj
+  obtain ⟨huc, hud⟩ := kind_zero eu hj.1
+  obtain ⟨hdc, hdd⟩ := kind_two ed hj.2.1
+  obtain ⟨cr, h4⟩ := peering_accepted mac net now dst src hWF hUp hSR
+    { ed with down := false } { eu with down := true } (reverseCursor cf) kd ku hdp hup hJ' h2 h3
+  exact ⟨cr, by rw [h4, pathIfaces_flip_peering eu ed hud hdd]⟩
+
+/-- the edge lists path combination joins: no edge peers, or exactly two edges which both peer -/
+theorem joinable_cases (mac : MacFn) (net : Net) (edges : List Edge) (src dst : Nat)
+    (hJ : Joinable mac net edges src dst) :
+    (∀ e ∈ edges, e.peer = none) ∨
+    ∃ e1 e2 k1 k2, edges = [e1, e2] ∧ e1.peer = some k1 ∧ e2.peer = some k2 := by
+  by_cases hnp : ∀ e ∈ edges, e.peer = none
+  · exact Or.inl hnp
+  · right
+    obtain ⟨_, _, _, hjoints, hpl, _, _, _⟩ := hJ
+    have hex : ∃ e ∈ edges, e.peer.isSome = true := by
+      apply Classical.byContradiction
+      intro hno
+      apply hnp
+      intro e he
+      cases hpe : e.peer with
+      | none => rfl
+      | some k => exact absurd ⟨e, he, by simp [hpe]⟩ hno
+    obtain ⟨e, he, hpe⟩ := hex
+    have hlen := hpl e he hpe
+    match edges, hlen with
+    | [e1, e2], _ =>
+      have hj := hjoints.1
+      cases h1 : e1.peer with
+      | none =>
+        cases h2 : e2.peer with
+        | none =>
+          simp only [List.mem_cons, List.not_mem_nil, or_false] at he
+          rcases he with rfl | rfl
+          · simp [h1] at hpe
+          · simp [h2] at hpe
+        | some k2 => simp [Joint, h1, h2] at hj
+      | some k1 =>
+        cases h2 : e2.peer with
+        | none => simp [Joint, h1, h2] at hj
+        | some k2 => exact ⟨e1, e2, k1, k2, rfl, h1, h2⟩
 
 end Scion.Net
